@@ -6,7 +6,9 @@ pub mod c02;
 pub mod c03;
 pub mod c05;
 pub mod c07;
+pub mod c08;
 pub mod c10;
+pub mod c12;
 pub mod c13;
 pub mod values;
 pub mod common;
@@ -19,7 +21,9 @@ pub fn lookup(id: &str) -> Option<Box<dyn Property + Send>> {
         "C03" => Some(Box::new(c03::C03)),
         "C05" => Some(Box::new(c05::C05)),
         "C07" => Some(Box::new(c07::C07)),
+        "C08" => Some(Box::new(c08::C08)),
         "C10" => Some(Box::new(c10::C10)),
+        "C12" => Some(Box::new(c12::C12)),
         "C13" => Some(Box::new(c13::C13)),
         _ => None,
     }
